@@ -495,3 +495,18 @@ func VerifPoolRefill(in [4][]VerifPooled) {
 		}
 	}
 }
+
+// Addr identifies a pooled node (the harness tracks recency across operations).
+func (p VerifPooled) Addr() uintptr {
+	switch n := p.obj.(type) {
+	case *node4:
+		return uintptr(unsafe.Pointer(n))
+	case *node16:
+		return uintptr(unsafe.Pointer(n))
+	case *node48:
+		return uintptr(unsafe.Pointer(n))
+	case *node256:
+		return uintptr(unsafe.Pointer(n))
+	}
+	return 0
+}
